@@ -14,7 +14,7 @@ sed -i "s#path = \"/repo\"#path = \"$L/repo\"#" "$L/verif/sim/Cargo.toml"
 ALL="C01 C02 C03 C04 C05 C06 C07 C08 C09 C10 C11 C12 C13 C14 C15 C16 C17 C18 C19"
 for d in "$@"; do
   prop=$(basename "$(dirname "$d")" | sed 's/-out.*//'); n=$(basename "$d")
-  log=$RES/$prop-$n.log
+  log=$RES/$(basename "$(dirname "$d")")-$n.log
   {
     echo "== $prop/$n"
     cd "$L/repo" && git checkout -q -- . && rm -f tests/mutant_demo.rs
